@@ -243,6 +243,26 @@ def run(ctx, repo):
                         '1021.9999999999999)' % desc, '10.22 s, 4.35 m')
         else:
             ctx.ok('R3', 'score: %s is guarded (%s)' % (stmt_key(node), desc))
+            if desc.startswith('round(., '):
+                # the guard must keep the exact decimal product: marks have 2 decimals (100*mark is an integer) and the
+                # age factors fdec decimals, so fewer than fdec places loses digits that decide the floor/ceil, and more
+                # than 9 no longer absorbs the binary error (relative 1e-16 of a value up to 1e6)
+                try:
+                    nd = int(desc[len('round(., '):].split(')')[0])
+                except ValueError:
+                    nd = None
+                data = repo.json(DATA)
+                fdec = 0
+                for g in ('m', 'f'):
+                    for r in data[g]:
+                        for v in r[1:]:
+                            if isinstance(v, float):
+                                fdec = max(fdec, len(repr(v).split('.')[1]) if '.' in repr(v) and 'e' not in repr(v) else 0)
+                if nd is None or nd < fdec or nd > 9:
+                    ctx.finding('R3', '%s::score::%s#%d rounding guard places' % (ATH, stmt_key(node), occ[stmt_key(node)]), ATH, node.lineno,
+                                'the guard rounds 100*mark*factor to %s places; the exact product has up to %d decimals (age factors have '
+                                '%d), so between %d and 9 places are needed: fewer places change which side of an integer the product '
+                                'falls on' % (nd, fdec, fdec, fdec), 'age factor 0.9668, mark 10.57')
     ctx.floor('rounding sites in score()', n_sites, 3)
 
     # ---- R4 result type
